@@ -14,7 +14,7 @@ NOT_BUILT = 'check not built yet in this round (planned in DESIGN.md §4); not c
 
 PROPS = {}
 # properties whose checks are built and registered in MANIFEST.json
-CLAIMED = ['C01', 'C02', 'C03', 'C04', 'C05', 'C06', 'C07', 'C08', 'C09', 'C10', 'C11', 'C14', 'C15', 'C16', 'C17', 'C18', 'C19', 'C21', 'C22']
+CLAIMED = ['C01', 'C02', 'C03', 'C04', 'C05', 'C06', 'C07', 'C08', 'C09', 'C10', 'C11', 'C12', 'C14', 'C15', 'C16', 'C17', 'C18', 'C19', 'C21', 'C22']
 
 
 def prop(pid, **kw):
@@ -83,10 +83,13 @@ prop('C11', level='proof',
      note=PCHAIN + 'liveness is outside contract-based verification; stated undecided.',
      technique='Owicki-Gries style monitor invariants as CBMC contracts on the real task bodies', design_ref='§4 C11')
 prop('C12', level='proof',
-     text='Lock discipline for file-scope shared scheduler state: every access in the task bodies happens with the ghost lock flag held (accessor instrumentation '
-          'woven after the declarations).',
-     note=PCHAIN + 'heap objects handed between threads are argued from queue ownership, not checked access by access.',
-     technique='woven accessor macros + CBMC assertions on ghost lock state', design_ref='§4 C12')
+     text='Lock discipline for every object of static storage duration: (1) accessor macros woven after each shared variable assert at every textual use (including uses inside the queue macros) '
+          'that the guarding mutex is held or no other thread of the run exists, in all task bodies, callbacks and thread procedures of process.c, compress.c and expand.c; '
+          '(2) a symbol-table scan shows that the codec translation units have no mutable static storage at all and that the scheduler translation units have none outside the guard map.',
+     note=PCHAIN + 'The guard map is stated in contracts/*.spec; eof in expand.c is not instrumented (the name collides with struct members); tail_offs admits the documented unlocked read by its only writer; '
+          'the parser automaton is owned by the parse-token holder; heap blocks handed between threads are argued from queue ownership (monitor invariants), not checked access by access.',
+     technique='woven accessor assertions under CBMC monitor models + goto-cc symbol-table scan', design_ref='§4 C12, §9',
+     undecided=['heap objects handed between threads (ownership transfer through the queues)', 'libc internals', 'eof in expand.c'])
 prop('C14', level='proof',
      text='Lemma harnesses prove for every bit history that mini_dfa implements the longest-border (KMP) automaton of the '
           'literal pattern 0x314159265359 and that big_dfa is its 8-step composition with absorbing ACCEPT (all 49x256 '
